@@ -208,6 +208,15 @@ class Executor:
     def coerce(self, v, t, st):
         if isinstance(v, Unknown):
             return self.fresh_of_type(t, st, "unk")
+        if isinstance(v, Val) and isinstance(v.t, Opaque) and v.t.nm == "Any" and v.t != t:
+            out = self.fresh_of_type(t, st, "from_any")        # an untracked JSON value used at a concrete type
+            if t.mutable:
+                for other in st.env.values():
+                    if isinstance(other, Val) and other.t == t:
+                        st.assume(out.z != other.z)
+                self.assume_log("JSON values are trees: a container taken out of a dictionary is a different object "
+                                "from every container the function holds")
+            return out
         if isinstance(t, Opaque) and t.nm in ("Float", "StrT", "Any") and not (isinstance(v, Val) and v.t == t):
             return self.fresh_of_type(t, st, "untracked")       # floats and strings are not tracked
         if isinstance(v, Val):
@@ -262,6 +271,8 @@ class Executor:
             # a bound method stored as a provider: identified by (method name, receiver)
             f = z3.Function(f"bm_{v.name}", v.recv.z.sort(), z3.IntSort())
             return Val(t, f(v.recv.z))
+        if isinstance(t, Opaque) and t.nm == "Any":
+            return self.fresh_of_type(t, st, "any")
         if isinstance(v, PyConst) and isinstance(v.v, str) and t == Str:
             return Val(Str, z3.StringVal(v.v))
         raise Untranslatable(f"cannot coerce {v!r} to {t}")
@@ -310,6 +321,7 @@ class Executor:
             if isinstance(t, List):
                 return self.list_len(st, v) > 0
             if isinstance(t, (Dict, Set)):
+                self.card_axioms(st, v)
                 return self.card(st, v) > 0
             if isinstance(t, (Obj, Opaque, Tup)):
                 return z3.BoolVal(True)
@@ -479,7 +491,8 @@ class Executor:
         """An iterable value as an indexable View (snapshot of the current state)."""
         if isinstance(v, View):
             return v
-        if isinstance(v, Unknown):
+        if isinstance(v, Unknown) or (self.lenient and (isinstance(v, BoundMethod) or (
+                isinstance(v, Val) and isinstance(v.t, Opaque) and v.t.nm == "Any"))):
             n = fresh("unk_len", z3.IntSort())
             st.assume(n >= 0)
             return View(n, lambda i: Unknown("elem"), None)
@@ -699,6 +712,21 @@ class Executor:
         for tup, s in self.ev_Tuple(e, st):
             yield ("listlit", tup), s
 
+    def ev_Dict(self, e, st):
+        """A dict display with string keys (JSON-like dictionaries): Dict(Str, Any), values not tracked."""
+        want = getattr(self, "expect_type", None)
+        t = want if isinstance(want, Dict) else Dict(Str, Opaque("Any"))
+        d = self.alloc(st, t)
+        s = st
+        for k, v in zip(e.keys, e.values):
+            if k is None:
+                raise Untranslatable("dict display with ** unpacking")
+            kv, s = self.ev1(k, s)
+            vv, s = self.ev1(v, s)
+            key = self.add_key(s, d, kv)
+            self.set_dvals(s, d, z3.Store(self.dvals(s, d), key.z, self.coerce(vv, t.v, s).z))
+        yield d, s
+
     def ev_Set(self, e, st):
         for tup, s in self.ev_Tuple(e, st):
             yield ("setlit", tup), s
@@ -739,6 +767,8 @@ class Executor:
                 i = t.names.index(name)
                 return self.valid_ref(st, Val(t.elts[i], t.proj(obj.z, i)))
             return BoundMethod(obj, name)
+        if isinstance(obj, tuple) and obj and obj[0] == "super":
+            return BoundMethod(obj, name)
         if isinstance(obj, (PyTuple,)):
             return BoundMethod(obj, name)
         if isinstance(obj, tuple) and obj and obj[0] == "listlit":
@@ -751,6 +781,8 @@ class Executor:
             return PyConst(("attr", obj.v, name))
         if isinstance(obj, FuncRef):
             return FuncRef(obj.qual + "." + name)
+        if self.lenient and isinstance(obj, BoundMethod):
+            return Unknown(f"attribute of an untracked attribute ({obj.name}.{name})")
         raise Untranslatable(f"attribute {name} of {obj!r}")
 
     # -- operators
@@ -1433,7 +1465,8 @@ class Executor:
 BUILTIN_NAMES = {"len", "sum", "all", "any", "max", "min", "sorted", "tuple", "list", "set", "range", "enumerate",
                  "zip", "isinstance", "bool", "abs", "next", "map", "int", "iter", "cast", "deque", "Counter",
                  "defaultdict", "dict", "frozenset", "reversed", "str", "print", "divmod", "Deque", "Info",
-                 "filter", "id", "repr", "type", "hasattr", "getattr", "super", "float", "round"}
+                 "filter", "id", "repr", "type", "hasattr", "getattr", "super", "float", "round", "issubclass",
+                 "import_module", "setattr", "callable", "vars", "dir"}
 
 
 def _bind():
